@@ -30,6 +30,8 @@ def gen_case(r, cid, long_ok=True):
         if x < 0.30:
             k = 1 if r.random() < 0.8 else r.randint(2, 3)
             cs = [r.choice(chans) for _ in range(k)]
+            if k > 1 and r.random() < 0.3:        # the same channel twice in one command (a a / a b a)
+                cs[-1] = cs[0]
             if subs and r.random() < 0.25:       # repeat an existing subscription on purpose
                 c, ch0 = r.choice(sorted(subs))
                 cs[0] = ch0
@@ -64,7 +66,7 @@ def gen_case(r, cid, long_ok=True):
     return ["CASE %s" % cid] + lines + ["END"]
 
 
-def fixed_cases():
+def fixed_cases(api=True):
     """the situations named in the property / found defective at the pinned commit"""
     x, y = hx(b"x"), hx(b"y")
     cs = [
@@ -78,15 +80,26 @@ def fixed_cases():
         ["S 1 " + x, "P 1 " + x + " " + hx(b"self")],                                    # publisher is subscribed
         ["S 1 " + x, "S 2 " + y, "P 3 " + x + " 01", "P 3 " + y + " 02"],                 # no other connection
         ["S 1 " + x, "K 1", "S 2 " + x, "U 2 " + x, "S 3 " + x, "P 4 " + x + " 01"],      # retire / re-create channel
+        # one SUBSCRIBE naming a channel more than once: one confirmation per occurrence, one subscription
+        ["S 1 %s %s" % (x, y), "S 2 %s %s" % (x, x), "P 3 " + x + " " + hx(b"m2"), "P 3 " + y + " 01"],
+        ["S 1 %s %s %s" % (x, y, x), "P 2 " + x + " 01", "P 2 " + y + " 02", "S 1 " + x, "P 2 " + x + " 03"],
+        ["S 1 %s %s" % (x, x), "D 1", "S 2 " + x, "P 3 " + x + " 01"],
+        # unsubscribing what is not subscribed changes nothing; subscribing again in a later command
+        ["S 1 " + x, "U 1 " + y, "U 2 " + x, "P 3 " + x + " 01", "U 1 " + x, "U 1 " + x, "P 3 " + x + " 02", "S 1 " + x, "S 1 " + x, "P 3 " + x + " 03"],
     ]
+    cs = [c for c in cs if api or not any(l.startswith("U ") for l in c)]
     return [["CASE f%d" % i] + c + ["END"] for i, c in enumerate(cs)]
 
 
-def gen_programs(seed, n):
+def gen_programs(seed, n, api=True):
+    """api=False: programs for the command-level harness (no API-level U operation)."""
     r = random.Random(seed * 1000003 + 19)
-    cases = fixed_cases()
+    cases = fixed_cases(api)
     for i in range(n):
-        cases.append(gen_case(r, "g%d" % i))
+        c = gen_case(r, "g%d" % i)
+        if not api:
+            c = [l for l in c if not l.startswith("U ")]
+        cases.append(c)
     return cases
 
 
